@@ -41,6 +41,8 @@ def owners(clause, e):
         out.add("C02")
     elif clause == "rule":
         out.add(RULE_OWNER[fn])
+        if e.get("history"):
+            out.add("C01")       # the call re-used a caller-owned parameter object: a wrong result is a history dependence
         if e["obs"]["exc"] and not e.get("exp_raises", False):
             out.add("C01")
     elif clause == "rel":
@@ -104,7 +106,7 @@ class Recorder:
             eid = len(self.events) + 1
             e = {"id": eid, "sid": self.sid, "call": call, "rel": rel, "lenient": lenient, "obs": obs,
                  "conc": json.dumps(cc, sort_keys=True), "judge": extra.get("judge", "all")}
-            for k in ("variant", "variant_label", "exp"):
+            for k in ("variant", "variant_label", "exp", "history"):
                 if k in extra:
                     e[k] = extra[k]
             if rel["kind"] == "base":
@@ -378,9 +380,9 @@ def extra_valid_int(ctx, rec):
 
 
 CARRIER_SETS_QUICK = {
-    "xc": ["list_none", "list_nan", "tuple_nan", "f32", "i64", "ma_nan", "ma_junk", "ma_mixed", "series", "series_idx", "dask"],
+    "xc": ["list_none", "list_nan", "tuple_nan", "f32", "i64", "ma_nan", "ma_junk", "ma_mixed", "series", "series_idx", "series_shuf", "dask"],
     "tc": ["dt64us", "dt64ms", "dt64s", "pydt", "pdts", "dtindex", "series_naive", "series_utc", "dtindex_utc",
-           "epoch_list", "epoch_i64", "epoch_f64"],
+           "series_utc_us", "dtindex_utc_s", "dtindex_us", "epoch_list", "epoch_i64", "epoch_f64"],
 }
 
 
@@ -510,11 +512,41 @@ def extra_repo_tests(ctx, rec):
     ctx.cov["repo_test_calls"] = dict(stats, validated_here=n)
 
 
+def extra_shared_config(ctx, rec):
+    """C01 (call histories) / C08: ONE caller-owned ClimatologyConfig object used for many calls with different data
+    and time arrays, with calls of other tests in between; every call is judged by the rule as if it were the first"""
+    g = gen_qc.Gen(ctx.seed + 83, size=ctx.pick(6, 10))
+    for k in range(ctx.pick(8, 40)):
+        members = [g.member() for _ in range(g.r.choice([1, 2, 3]))]
+        for j in range(ctx.pick(5, 8)):
+            c = g.clim()
+            c["p"]["members"] = json.loads(json.dumps(members))
+            rec.session([({"kind": "base", "i": 0, "k": 0}, c, {"history": True})], dict(CONCS[k % 2], climc="shared"))
+            if j % 2:
+                other = g.base(g.r.choice(["spike", "gross", "flat"]))
+                rec.session([({"kind": "base", "i": 0, "k": 0}, other)], CONCS[0])
+
+
+def extra_big_offsets(ctx, rec):
+    """C17: value offsets many orders of magnitude above the differences (exact in float64), where relative
+    tolerances or reduced-precision round trips inside a rule would show"""
+    g = gen_qc.Gen(ctx.seed + 89, size=ctx.pick(8, 14))
+    for fn in ("flat", "spike", "roc", "dens"):
+        for rep in range(ctx.pick(40, 300)):
+            c = g.base(fn)
+            steps = [({"kind": "base", "i": 0, "k": 0}, c)]
+            for k in (2 ** 20, -(2 ** 21), 2 ** 17 + 1):
+                d = json.loads(json.dumps(c))
+                d["x"] = [v if v == gen_qc.NA else v + k for v in c["x"]]
+                steps.append(({"kind": "shiftv", "i": 0, "k": k}, d))
+            rec.session(steps, CONCS[rep % len(CONCS)])
+
+
 def extra_purity(ctx, rec):
     """C01: arguments unchanged / repeatability under every carrier (aliasing bugs depend on the carrier)"""
     g = gen_qc.Gen(ctx.seed + 53, size=ctx.pick(6, 12))
-    datas = ["ma_nan", "ma_junk", "series", "series_idx", "f32", "list_none", "tuple_nan", "dask"]
-    times = ["dtindex", "series_naive", "series_utc", "epoch_f64", "epoch_list", "pydt", "dt64s"]
+    datas = ["ma_nan", "ma_junk", "series", "series_idx", "series_shuf", "f32", "list_none", "tuple_nan", "dask"]
+    times = ["dtindex", "series_naive", "series_utc", "series_utc_us", "dtindex_utc_s", "epoch_f64", "epoch_list", "pydt", "dt64s"]
     for fn in ALL_FNS:
         for rep in range(ctx.pick(8, 40)):
             c = g.base(fn)
@@ -525,6 +557,10 @@ def extra_purity(ctx, rec):
             if (fn == "press" and xc == "list_none") or (fn == "valid" and xc in ("list_none", "tuple_nan")):
                 xc = "ma_junk"
             conc.update({"xc": xc, "ac": datas[(rep + 3) % len(datas)], "tc": times[rep % len(times)]})
+            if fn == "clim" and rep % 2:
+                conc["climc"] = "object"       # a caller-owned ClimatologyConfig, re-used by the repeat call
+            if rep % 3 == 0:
+                conc["spanc"] = "tuple"
             rec.session([({"kind": "base", "i": 0, "k": 0}, c)], conc)
 
 
@@ -547,7 +583,7 @@ PLAN = {
     "C01": {"mc": T([M("all_recall", ALL_FNS, ["recall"], 2, budget=20000)],
                     [M("all_recall", ALL_FNS, ["recall"], 3, budget=150000)]),
             "random": {"fns": ALL_FNS, "count": (330, 4400), "kinds": ["recall"], "size": (10, 30)},
-            "extra": [extra_short_series, extra_purity, extra_repo_tests]},
+            "extra": [extra_short_series, extra_purity, extra_shared_config, extra_repo_tests]},
     "C02": {"mc": T([M("missing_a", ["gross", "valid", "spike", "roc", "flat", "dens", "loc", "clim"], [], 3, budget=20000),
                      M("missing_b", ["att", "speed"], [], 2, budget=6000)],
                     [M("missing_a", ["gross", "valid", "spike", "roc", "flat", "loc", "clim"], [], 5, big=True, budget=120000),
@@ -561,7 +597,7 @@ PLAN = {
     "C08": {"repo_fns": ["clim"], "mc": T([M("clim", ["clim"], ["perturb"], 1, budget=16000)],
                     [M("clim", ["clim"], ["perturb", "tighten"], 1, big=True, budget=160000)]),
             "random": {"fns": ["clim"], "count": (500, 6000), "kinds": ["recall", "shiftt"], "size": (8, 24)},
-            "extra": [extra_repo_tests]},
+            "extra": [extra_repo_tests, extra_shared_config]},
     "C09": {"repo_fns": ["spike"], "mc": T([M("spike4", ["spike"], ["reverse"], 4, budget=10000),
                      M("spike3p", ["spike"], ["perturb"], 3, budget=6000)],
                     [M("spike5", ["spike"], ["reverse"], 5, big=True, budget=120000),
@@ -604,7 +640,7 @@ PLAN = {
                      M("locality", NOPRESS, ["perturb"], 3, budget=120000)]),
             "random": {"fns": NOPRESS, "count": (400, 6000),
                        "kinds": ["shiftv", "negate", "shiftt", "shiftboth", "reverse", "perturb", "perturb"], "size": (8, 24)},
-            "extra": [extra_subsecond_shift]},
+            "extra": [extra_subsecond_shift, extra_big_offsets]},
 }
 
 RULES = {
